@@ -149,40 +149,52 @@ Definition wildcard_at (s : text) : option text :=
   | _ => None
   end.
 
-(* the other lines of a multi-line binding get the indentation of a slot that stands alone on its line *)
-Fixpoint indent_after_nl (k : nat) (v : text) : text :=
-  match v with
+(* "\n".join(line if <kept> else indentation + line for i, line in enumerate(text.split("\n"))):
+   the first line, the lines listed in [strl] (they begin inside a string literal) and -- unless [blanks] --
+   the blank lines stay as they are; every other line gets k blanks in front *)
+Fixpoint indent_lines (blanks : bool) (k : nat) (strl : list nat) (i : nat) (ls : list text) : list text :=
+  match ls with
   | [] => []
-  | c :: tl => if c =? NL then NL :: spaces k ++ indent_after_nl k tl else c :: indent_after_nl k tl
+  | l :: tl =>
+      (if Nat.eqb i 0 || existsb (Nat.eqb i) strl || (negb blanks && negb (nonblank l)) then l else spaces k ++ l)
+      :: indent_lines blanks k strl (S i) tl
   end.
+
+(* the other lines of a multi-line binding get the indentation of a slot that stands alone on its line,
+   except the lines that begin inside a string literal of the bound text (f83e193: a multi-line docstring
+   of a bound def / class is content).  [strl v] = those lines, zero-based:
+   core._lines_inside_string_literals(v), a tokenizer question -- an input of the model *)
+Definition indent_binding (strl : text -> list nat) (k : nat) (v : text) : text :=
+  join_nl (indent_lines true k (strl v) O (split_nl v)).
 
 (* [skip] = characters of a wildcard already replaced that are still to be consumed;
    [lead] = Some k when the template line so far consists of k blanks *)
-Fixpoint fill_aux (binds : list (text * text)) (lead : option nat) (skip : nat) (s : text) : option text :=
+Fixpoint fill_aux (strl : text -> list nat) (binds : list (text * text)) (lead : option nat) (skip : nat) (s : text)
+  : option text :=
   match s with
   | [] => Some []
   | c :: tl =>
       match skip with
-      | S k => fill_aux binds None k tl
+      | S k => fill_aux strl binds None k tl
       | O =>
           match wildcard_at s with
           | Some w =>
-              match text_lookup w binds, fill_aux binds None (length w + 3) tl with
+              match text_lookup w binds, fill_aux strl binds None (length w + 3) tl with
               | Some v, Some rest =>
-                  Some ((match lead with Some (S k) => indent_after_nl (S k) v | _ => v end) ++ rest)
+                  Some ((match lead with Some (S k) => indent_binding strl (S k) v | _ => v end) ++ rest)
               | _, _ => None
               end
           | None =>
               let lead' := if c =? NL then Some O
                            else if c =? SP then match lead with Some k => Some (S k) | None => None end
                            else None in
-              match fill_aux binds lead' O tl with Some rest => Some (c :: rest) | None => None end
+              match fill_aux strl binds lead' O tl with Some rest => Some (c :: rest) | None => None end
           end
       end
   end.
 
-Definition format_template (tmpl : text) (binds : list (text * text)) : option text :=
-  fill_aux binds (Some O) O tmpl.
+Definition format_template (strl : text -> list nat) (tmpl : text) (binds : list (text * text)) : option text :=
+  fill_aux strl binds (Some O) O tmpl.
 
 (* ------------------------------------------------------------------------------------------ *)
 (* textwrap.dedent (space-only indentation) and textwrap.indent *)
@@ -232,40 +244,40 @@ Definition match_indentation (src : text) (r : range) : nat :=
   let seg := slice src (Z.of_nat ls, snd r) in
   indentation_of_line (let '(a, _, _) := partition_nl seg in a).
 
-Fixpoint indent_lines (k : nat) (strl : list nat) (i : nat) (ls : list text) : list text :=
-  match ls with
-  | [] => []
-  | l :: tl =>
-      (if Nat.eqb i 0 || existsb (Nat.eqb i) strl || negb (nonblank l) then l else spaces k ++ l)
-      :: indent_lines k strl (S i) tl
-  end.
+(* The lines of the instantiated, dedented replacement as find_replace yields them: the first line is
+   already in place, the others get the indentation of the line the match starts on -- except blank lines
+   and the lines that begin inside a string literal (2578f83).  [strl d] = those lines of the text d:
+   processing._lines_inside_string_literals(d), a tokenizer question -- an input of the model, and the model
+   asks it about the INSTANTIATED text of every match (a literal that spans lines can come from the
+   template or from a binding: the docstring of a bound def / class). *)
+Definition place_lines (strl : text -> list nat) (src : text) (r : range) (filled : text) : list text :=
+  let d := dedent filled in
+  indent_lines false (match_indentation src r) (strl d) O (split_nl d).
 
-(* [strl] = the (0-based) lines of the dedented text that begin inside a string literal
-   (processing._lines_inside_string_literals, a tokenizer question: an input of the model) *)
-Definition place_replacement (src : text) (r : range) (strl : list nat) (filled : text) : text :=
-  join_nl (indent_lines (match_indentation src r) strl O (split_nl (dedent filled))).
+Definition place_replacement (strl : text -> list nat) (src : text) (r : range) (filled : text) : text :=
+  join_nl (place_lines strl src r filled).
 
-(* one match as found by the matcher: range of the matched node(s), wildcard bindings by unparsed text,
-   string-literal lines of its instantiated replacement *)
-Definition smatch := (range * list (text * text) * list nat)%type.
+(* one match as found by the matcher: range of the matched node(s), wildcard bindings by unparsed text *)
+Definition smatch := (range * list (text * text))%type.
 
 Definition take_count {X} (count : Z) (l : list X) : list X :=
   if 0 <? count then firstn (Z.to_nat count) l else l.
 
 (* what subn's fix_func yields; None = ValueError out of format_template.  The generator is lazy:
    item number count+1 is still computed before the loop breaks. *)
-Fixpoint items_of (src tmpl : text) (ms : list smatch) : option (list (range * text)) :=
+Fixpoint items_of (strl : text -> list nat) (src tmpl : text) (ms : list smatch) : option (list (range * text)) :=
   match ms with
   | [] => Some []
-  | (r, binds, strl) :: tl =>
-      match format_template tmpl binds, items_of src tmpl tl with
-      | Some f, Some rest => Some ((r, place_replacement src r strl f) :: rest)
+  | (r, binds) :: tl =>
+      match format_template strl tmpl binds, items_of strl src tmpl tl with
+      | Some f, Some rest => Some ((r, place_replacement strl src r f) :: rest)
       | _, _ => None
       end
   end.
 
-Definition subn_items (src tmpl : text) (count : Z) (ms : list smatch) : option (list (range * text)) :=
-  match items_of src tmpl (if 0 <? count then firstn (S (Z.to_nat count)) ms else ms) with
+Definition subn_items (strl : text -> list nat) (src tmpl : text) (count : Z) (ms : list smatch)
+  : option (list (range * text)) :=
+  match items_of strl src tmpl (if 0 <? count then firstn (S (Z.to_nat count)) ms else ms) with
   | Some l => Some (take_count count l)
   | None => None
   end.
@@ -461,6 +473,14 @@ Fixpoint equiv_table (dflt : bool) (tbl : list (text * text * bool)) (a b : text
   | (k1, k2, v) :: tl => if text_eqb k1 a && text_eqb k2 b then v else equiv_table dflt tl a b
   end.
 
+(* the tokenizer's answers about the texts the model asks about (computed by the harness with CPython's
+   tokenize); a text that is not listed has no line inside a string literal *)
+Fixpoint strl_table (tbl : list (text * list nat)) (t : text) : list nat :=
+  match tbl with
+  | [] => []
+  | (k, v) :: tl => if text_eqb k t then v else strl_table tl t
+  end.
+
 Record subn_case := mkSubn {
   sc_src : text;
   sc_tmpl : text;
@@ -470,6 +490,7 @@ Record subn_case := mkSubn {
   sc_equiv : list (text * text * bool); (* answers of processing._sources_equivalent observed during the run *)
   sc_wraps : list range;                (* ranges whose replacement gets the call's parentheses back *)
   sc_mlstr : list text;                 (* texts with a line that begins inside a string literal *)
+  sc_strl : list (text * list nat);     (* lines that begin inside a string literal: bound texts, instantiated replacements *)
   sc_coms : option (list nat);          (* CPython's tokenizer: lines with an ignore COMMENT token *)
   sc_ilines : list range;               (* physical lines for which core.has_ignore_comment answers True *)
   sc_probes : list (range * bool);      (* core.has_ignore_comment on probe ranges: first / last character of
@@ -494,7 +515,8 @@ Fixpoint items_eqb (a b : list (range * text)) : bool :=
   | _, _ => false
   end.
 
-Definition model_items (c : subn_case) := subn_items (sc_src c) (sc_tmpl c) (sc_count c) (sc_matches c).
+Definition model_items (c : subn_case) :=
+  subn_items (strl_table (sc_strl c)) (sc_src c) (sc_tmpl c) (sc_count c) (sc_matches c).
 
 Definition model_sched (c : subn_case) : list flat_entry :=
   match model_items c with
@@ -549,7 +571,7 @@ Definition opt_text_eqb (a b : option text) : bool :=
 
 Definition fn_case_ok (c : fn_case) : bool :=
   match c with
-  | FFormat t b e => opt_text_eqb (format_template t b) e
+  | FFormat t b e => opt_text_eqb (format_template (fun _ => []) t b) e
   | FDedent s e => text_eqb (dedent s) e
   | FIndent n s e => text_eqb (indent n s) e
   end.
